@@ -449,12 +449,32 @@ impl Engine for ConcEngine {
                 }
             }
             if sc.store.persistent && report.violation.is_none() {
-                let quiet = store.verif_shard_counts().iter().all(|c| *c == 0) && store.verif_retirements_pending() == Some(0);
-                if quiet && store.flush().is_ok() {
-                    match checks::check_partition(&env) {
-                        Ok(_) => report.count("partition_checks", 1),
-                        Err(f) => report.fail(f.rule, format!("at quiescence: {}", f.detail)),
+                // With the sweeper running a key can expire at any moment, which takes its extent
+                // out of the index before the retirement has returned it to the free pool: the
+                // partition is judged only when it stays the same over a settle + flush, and a
+                // failure must persist over three such attempts.
+                let mut last_failure = None;
+                for _ in 0..3 {
+                    let _ = env.settle();
+                    let quiet = store.verif_shard_counts().iter().all(|c| *c == 0) && store.verif_retirements_pending() == Some(0);
+                    if !(quiet && store.flush().is_ok()) {
+                        last_failure = None;
+                        continue;
                     }
+                    match checks::check_partition(&env) {
+                        Ok(_) => {
+                            report.count("partition_checks", 1);
+                            last_failure = None;
+                            break;
+                        }
+                        Err(f) => last_failure = Some(f),
+                    }
+                    if sc.store.sweeper.is_none() {
+                        break;
+                    }
+                }
+                if let Some(f) = last_failure {
+                    report.fail(f.rule, format!("at quiescence: {}", f.detail));
                 }
             }
         }
